@@ -110,18 +110,6 @@ package time
 //@   requires tzInv()
 //@   ensures [C18] tzInv()
 //@   modifies map map[int]*time.Location, ghost lock.held
-//@   uses fend_def(in, 20, 20 + i + 1)
-//@   uses scaled_bound(val)
-//@   uses umul_exact(val, 1)
-//@   uses umul_exact(val, 10)
-//@   uses umul_exact(val, 100)
-//@   uses umul_exact(val, 1000)
-//@   uses umul_exact(val, 10000)
-//@   uses umul_exact(val, 100000)
-//@   uses umul_exact(val, 1000000)
-//@   uses umul_exact(val, 10000000)
-//@   uses umul_exact(val, 100000000)
-//@   uses umul_exact(val, 1000000000)
 //@   uses umul_exactl(1, tzh*60*60 + tzm*60)
 //@   uses umul_exactl(-1, tzh*60*60 + tzm*60)
 //@   loop 1 invariant n >= 21 && 0 <= iterpos() && iterpos() <= n - 20 && (forall k int :: 20 <= k && k < 20 + iterpos() ==> isd(in, k))
@@ -129,3 +117,18 @@ package time
 //@   loop 1 invariant mult == p10(9 - min9(iterpos())) && val == dv(in, 20, min9(iterpos())) && 0 <= val && val < p10(min9(iterpos()))
 //@   loop 1 uses dv_unfold(in, 20, min9(iterpos()))
 //@   loop 1 decreases (n - 20) - iterpos()
+//     loop postcondition: the digit run ends at 20+i+1, and val*mult is its value in nanoseconds, below one second
+//@   loop 1 exit-uses fend_def(in, 20, 20 + i + 1)
+//@   loop 1 exit-uses scaled_bound(val)
+//@   loop 1 exit-uses umul_exact(val, 1)
+//@   loop 1 exit-uses umul_exact(val, 10)
+//@   loop 1 exit-uses umul_exact(val, 100)
+//@   loop 1 exit-uses umul_exact(val, 1000)
+//@   loop 1 exit-uses umul_exact(val, 10000)
+//@   loop 1 exit-uses umul_exact(val, 100000)
+//@   loop 1 exit-uses umul_exact(val, 1000000)
+//@   loop 1 exit-uses umul_exact(val, 10000000)
+//@   loop 1 exit-uses umul_exact(val, 100000000)
+//@   loop 1 exit-uses umul_exact(val, 1000000000)
+//@   loop 1 exit assert 20 <= 20 + i + 1 && 20 + i + 1 <= n && (20 + i + 1 < n ==> fend(in, 20) == 20 + i + 1)
+//@   loop 1 exit assert 0 <= umul(val, mult) && umul(val, mult) < 1000000000 && umul(val, mult) == frac9(in, 20, 20 + i + 1)
